@@ -332,13 +332,14 @@ Qed.
 
 Definition inum (i : item) : Prop := blk_num i \/ d6a_num i \/ d6b_num i \/ d4_num i.
 
+Lemma c_first_v6 : first_v6 = 0. Proof. reflexivity. Qed.
 Lemma c_first_v4 : first_v4 = 281470681743360. Proof. reflexivity. Qed.
 Lemma c_after_v4 : after_v4 = 281474976710656. Proof. reflexivity. Qed.
 Lemma c_two128 : two128 = 340282366920938463463374607431768211456. Proof. reflexivity. Qed.
 Lemma c_2_127 : 2 ^ 127 = 170141183460469231731687303715884105728. Proof. reflexivity. Qed.
 Lemma c_2_31 : 2 ^ 31 = 2147483648. Proof. reflexivity. Qed.
 
-Ltac consts := rewrite ?c_first_v4, ?c_after_v4, ?c_two128, ?c_2_127, ?c_2_31 in *.
+Ltac consts := rewrite ?c_first_v6, ?c_first_v4, ?c_after_v4, ?c_two128, ?c_2_127, ?c_2_31 in *.
 
 Ltac open_num H :=
   let a := fresh "a" in let l := fresh "l" in
@@ -661,7 +662,7 @@ Section Answer.
     - destruct (def4_fields s E4) as [L A].
       assert (Va : is_v4 a = true).
       { rewrite (sfam_masked s W3), A in Ef. change (is_v4 first_v4) with true in Ef. unfold fam in Ef.
-        destruct (is_v4 a); auto. discriminate Ef. }
+        destruct (is_v4 a); auto. }
       apply is_v4_iff in Va.
       exists (mkItem first_v4 after_v4 (sub_rloc s) (sub_rloc s)).
       assert (Hj : In (mkItem first_v4 after_v4 (sub_rloc s) (sub_rloc s)) (sub_items s))
@@ -708,6 +709,55 @@ Section Answer.
     apply (wf_same_block S); auto. rewrite <- C, <- C', E. reflexivity.
   Qed.
 
+  Lemma d4_item_exists : exists d, In d its /\ i_s d = first_v4 /\ i_e d = after_v4 /\ (imask d = 96 \/ imask d = 0).
+  Proof.
+    destruct (existsb is_def4 S) eqn:E.
+    - apply existsb_exists in E. destruct E as [s4 [Hs4 E4]]. destruct (def4_fields s4 E4) as [L _].
+      exists (mkItem first_v4 after_v4 (sub_rloc s4) (sub_rloc s4)). split.
+      + apply shape_in. eapply ShD4; eauto.
+      + cbn. unfold imask, sub_rloc. cbn. rewrite L. auto.
+    - exists (mkItem first_v4 after_v4 null_loc null_loc). split; [apply shape_in; apply ShN4; auto|]. cbn. auto.
+  Qed.
+
+  (* a default of the other family, or a null item, is never above an eligible subnet's item *)
+  Lemma null_no_eligible : forall t, In t its -> inEa t -> rl_null (i_l t) = true ->
+    (forall j, In j its -> inEa j -> j = t \/ ilt j t) ->
+    (i_s t = 0 \/ (i_s t = after_v4 /\ existsb is_def6 S = false) \/
+     (i_s t = first_v4 /\ i_e t = after_v4 /\ existsb is_def4 S = false)) -> imask t = 0 ->
+    forall s', In s' S -> eligible (fam a) a plen s' = false.
+  Proof.
+    intros t Ht Et Nt Mx Cl Mt s' Hs'. destruct (eligible (fam a) a plen s') eqn:El; auto. exfalso.
+    destruct (item_of_eligible s' Hs' El) as [j [Hj [Ej [Mj [Nj Sj]]]]].
+    pose proof (wfS_each S wfS s' Hs') as W'.
+    assert (Ne : j <> t) by (intro C; subst; congruence).
+    destruct (Mx j Hj Ej) as [C|Lt]; [contradiction|].
+    destruct Et as [T1 [T2 T3]]. destruct Ej as [J1 [J2 J3]].
+    destruct (sub_items_class s' j W' Sj) as [C6 C4].
+    pose proof (sub_items_num s' j W' Sj) as Nm.
+    destruct Lt as [Lt|[_ Lt]]; [|lia].
+    destruct Cl as [Cl|[[Cl E]|[Cl [Cl2 E]]]].
+    - lia.
+    - (* t is the implicit null point after the v4-mapped block *)
+      destruct Nm as [[x [l [E1 [E2 [E3 [B1 [B2 [B3 [B4 [B5 [B6 B7]]]]]]]]]]]|[[E1 [E2 E3]]|[[E1 [E2 E3]]|[E1 [E2 E3]]]]].
+      + rewrite E1, E2 in *. revert B7 B5 Lt J2 T1 Cl. consts. intros. lia.
+      + rewrite (no_def S is_def6 s' E Hs') in C6. assert (X : false = true) by (apply C6; auto). discriminate.
+      + lia.
+      + rewrite E2 in J2. lia.
+    - (* t is the implicit null range of the v4-mapped block *)
+      destruct Nm as [[x [l [E1 [E2 [E3 [B1 [B2 [B3 [B4 [B5 [B6 B7]]]]]]]]]]]|[[E1 [E2 E3]]|[[E1 [E2 E3]]|[E1 [E2 E3]]]]].
+      + rewrite E1, E2 in *. revert B7 B5 Lt J2 T1 T2 Cl Cl2. consts. intros. lia.
+      + assert (D6 : is_def6 s' = true) by (apply C6; auto).
+        destruct (def6_fields s' D6) as [L A].
+        destruct (wf_subnetb_spec s' W') as [_ [_ [W3 _]]].
+        unfold eligible in El. apply Bool.andb_true_iff in El. destruct El as [El _].
+        apply Bool.andb_true_iff in El. destruct El as [Ef _].
+        rewrite (sfam_masked s' W3), A in Ef. change (is_v4 0) with false in Ef. unfold fam in Ef.
+        assert (V : is_v4 a = true) by (apply is_v4_iff; rewrite Cl in T1; rewrite Cl2 in T2; auto).
+        rewrite V in Ef. discriminate Ef.
+      + revert E1 Lt Cl. consts. intros. lia.
+      + rewrite (no_def S is_def4 s' E Hs') in C4. assert (X : false = true) by (apply C4; auto). discriminate.
+  Qed.
+
   Theorem emax_is_lpm : forall t, In t its -> inEa t ->
     (forall j, In j its -> inEa j -> j = t \/ ilt j t) ->
     item_value t = lpm S (fam a) a plen.
@@ -725,26 +775,241 @@ Section Answer.
       pose proof (wfS_each S wfS s Hs) as W. destruct (wf_subnetb_spec s W) as [W1 [W2 [W3 W4]]].
       destruct (blk_item_fields s W) as [F1 [F2 [F3 F4]]].
       pose proof (nondef_blk_num s W E6 E4) as Nm.
-      assert (Cs : contains s a = true) by (apply contains_iff; auto; rewrite <- F1, <- F2, <- Eq; lia).
+      assert (Iv : s_addr s <= a /\ a < s_addr s + blk_size (s_len s)).
+      { rewrite <- F2, <- F1, <- Eq. lia. }
+      assert (Cs : contains s a = true) by (apply contains_iff; auto).
       unfold item_value. rewrite Eq. cbn [blk_item i_l]. rewrite (sub_rloc_value s W1).
       symmetry. apply lpm_unique; auto.
       + unfold eligible. rewrite Cs, Bool.andb_true_r. apply Bool.andb_true_iff. split.
         * rewrite (sfam_masked s W3). unfold fam.
-          destruct Nm as [x [l [E1 [E2 [E3 [B1 [B2 [B3 [B4 [B5 [B6 B7]]]]]]]]]]].
-          rewrite F1 in E1. rewrite F2 in E2. subst x. rewrite Eq, F1, F2 in T1, T2.
-          assert (El : blk_size l = blk_size (s_len s)) by lia. rewrite El in *.
-          destruct (is_v4 (s_addr s)) eqn:V1; destruct (is_v4 a) eqn:V2; auto; exfalso;
-            [apply is_v4_iff in V1|apply is_v4_iff in V2];
-            [assert (X : is_v4 a = true); [apply is_v4_iff|congruence]|
-             assert (X : is_v4 (s_addr s) = true); [apply is_v4_iff|congruence]];
-            revert B7 B5 T1 T2 V1 V2 || revert B7 B5 T1 T2; consts; intros; try lia.
-          all: try (destruct B7 as [B7|[B7|B7]]; lia).
+          assert (EV : is_v4 (s_addr s) = is_v4 a).
+          { destruct Nm as [x [l [E1 [E2 [E3 [B1 [B2 [B3 [B4 [B5 [B6 B7]]]]]]]]]]].
+            rewrite F1 in E1. rewrite F2 in E2. subst x.
+            assert (El : blk_size l = blk_size (s_len s)) by lia. rewrite El in *.
+            apply Bool.eq_true_iff_eq. rewrite !is_v4_iff.
+            revert B7 B5 Iv. consts. intros. lia. }
+          rewrite EV. destruct (is_v4 a); reflexivity.
         * apply N.leb_le. rewrite <- F3, <- Eq. exact Tplen.
       + intros s' Hs' El. rewrite <- F3, <- Eq. apply MaxLen; auto.
       + intros s' Hs' El EL. f_equal.
         unfold eligible in El. apply Bool.andb_true_iff in El. destruct El as [_ Cs'].
         apply (eligible_same_len s' s); auto.
     - (* the declared IPv6 default, first copy *)
-      admit_placeholder.
-  Abort.
+      pose proof (wfS_each S wfS s Hs) as W. destruct (wf_subnetb_spec s W) as [W1 [W2 [W3 W4]]].
+      destruct (def6_fields s E6) as [L A].
+      assert (Mt : imask t = 0) by (rewrite Eq; unfold imask, sub_rloc; cbn; rewrite L; reflexivity).
+      assert (Cs : contains s a = true).
+      { apply contains_iff; auto. rewrite A, L. change (blk_size 0) with two128. lia. }
+      assert (V : is_v4 a = false).
+      { destruct (is_v4 a) eqn:V; auto. exfalso. apply is_v4_iff in V.
+        destruct d4_item_exists as [d [Hd [D1 [D2 D3]]]].
+        assert (Ed : inEa d).
+        { unfold inEa. rewrite D1, D2. split; [lia|]. split; [lia|]. intros _.
+          assert (V' : is_v4 a = true) by (apply is_v4_iff; auto). pose proof (v4_plen V'). lia. }
+        destruct (Mx d Hd Ed) as [C|[C|[C _]]].
+        - rewrite C, Eq in D1. cbn in D1. revert D1. consts. discriminate.
+        - rewrite D1, Eq in C. cbn in C. revert C. consts. lia.
+        - rewrite D1, Eq in C. cbn in C. revert C. consts. discriminate. }
+      unfold item_value. rewrite Eq. cbn [i_l]. rewrite (sub_rloc_value s W1).
+      symmetry. apply lpm_unique; auto.
+      + unfold eligible. rewrite Cs, Bool.andb_true_r. apply Bool.andb_true_iff. split.
+        * rewrite (sfam_masked s W3), A. change (is_v4 0) with false. unfold fam. rewrite V. reflexivity.
+        * apply N.leb_le. lia.
+      + intros s' Hs' El. rewrite L, <- Mt. apply MaxLen; auto.
+      + intros s' Hs' El EL. f_equal.
+        unfold eligible in El. apply Bool.andb_true_iff in El. destruct El as [_ Cs'].
+        apply (eligible_same_len s' s); auto.
+    - (* the declared IPv6 default, copy after the v4-mapped block *)
+      pose proof (wfS_each S wfS s Hs) as W. destruct (wf_subnetb_spec s W) as [W1 [W2 [W3 W4]]].
+      destruct (def6_fields s E6) as [L A].
+      assert (Mt : imask t = 0) by (rewrite Eq; unfold imask, sub_rloc; cbn; rewrite L; reflexivity).
+      assert (Cs : contains s a = true).
+      { apply contains_iff; auto. rewrite A, L. change (blk_size 0) with two128. lia. }
+      assert (V : is_v4 a = false).
+      { destruct (is_v4 a) eqn:V; auto. exfalso. apply is_v4_iff in V.
+        rewrite Eq in T1. cbn [i_s] in T1. lia. }
+      unfold item_value. rewrite Eq. cbn [i_l]. rewrite (sub_rloc_value s W1).
+      symmetry. apply lpm_unique; auto.
+      + unfold eligible. rewrite Cs, Bool.andb_true_r. apply Bool.andb_true_iff. split.
+        * rewrite (sfam_masked s W3), A. change (is_v4 0) with false. unfold fam. rewrite V. reflexivity.
+        * apply N.leb_le. lia.
+      + intros s' Hs' El. rewrite L, <- Mt. apply MaxLen; auto.
+      + intros s' Hs' El EL. f_equal.
+        unfold eligible in El. apply Bool.andb_true_iff in El. destruct El as [_ Cs'].
+        apply (eligible_same_len s' s); auto.
+    - (* the declared IPv4 default *)
+      pose proof (wfS_each S wfS s Hs) as W. destruct (wf_subnetb_spec s W) as [W1 [W2 [W3 W4]]].
+      destruct (def4_fields s E4) as [L A].
+      assert (Mt : imask t = 96) by (rewrite Eq; unfold imask, sub_rloc; cbn; rewrite L; reflexivity).
+      rewrite Eq in T1, T2. cbn [i_s i_e] in T1, T2.
+      assert (Cs : contains s a = true).
+      { apply contains_iff; auto. rewrite A, L, blk_size_96. change (first_v4 + 2 ^ 32) with after_v4. lia. }
+      assert (V : is_v4 a = true) by (apply is_v4_iff; lia).
+      unfold item_value. rewrite Eq. cbn [i_l]. rewrite (sub_rloc_value s W1).
+      symmetry. apply lpm_unique; auto.
+      + unfold eligible. rewrite Cs, Bool.andb_true_r. apply Bool.andb_true_iff. split.
+        * rewrite (sfam_masked s W3), A. change (is_v4 first_v4) with true. unfold fam. rewrite V. reflexivity.
+        * apply N.leb_le. lia.
+      + intros s' Hs' El. rewrite L, <- Mt. apply MaxLen; auto.
+      + intros s' Hs' El EL. f_equal.
+        unfold eligible in El. apply Bool.andb_true_iff in El. destruct El as [_ Cs'].
+        apply (eligible_same_len s' s); auto.
+    - (* implicit null points: nothing is eligible *)
+      unfold item_value. rewrite Eq. cbn [i_l null_loc rl_null]. symmetry. apply lpm_none_iff.
+      apply (null_no_eligible t); auto; rewrite Eq; cbn; auto.
+    - unfold item_value. rewrite Eq. cbn [i_l null_loc rl_null]. symmetry. apply lpm_none_iff.
+      apply (null_no_eligible t); auto; rewrite Eq; cbn; auto.
+    - unfold item_value. rewrite Eq. cbn [i_l null_loc rl_null]. symmetry. apply lpm_none_iff.
+      apply (null_no_eligible t); auto; rewrite Eq; cbn; auto.
+  Qed.
 End Answer.
+
+(* ---------------------------------------------------------------- C03 on the range points *)
+
+Lemma sub_points_nonempty : forall s, sub_points s <> [].
+Proof. intro s. unfold sub_points. destruct (is_def6 s); [|destruct (is_def4 s)]; discriminate. Qed.
+
+Theorem rearrange_is_lpm : forall sort S a plen,
+  sort_spec sort -> wf_subnets S -> a < two128 -> plen <= 128 -> masked a plen ->
+  exists pts, rearrange sort S = Ok pts /\ pt_locate pts a plen = lpm S (fam a) a plen.
+Proof.
+  intros sort S a plen Hsort wfS Ha Hp Hm.
+  destruct S as [|s0 S'].
+  { exists []. split; reflexivity. }
+  set (S := s0 :: S') in *.
+  pose proof (wfS_all S wfS) as Wall.
+  unfold rearrange, rearrange_rr.
+  set (r := add_locations S).
+  assert (Hne : rr_points r <> []).
+  { unfold r. rewrite add_locations_spec. cbn [rr_points S flat_map].
+    pose proof (sub_points_nonempty s0). destruct (sub_points s0); [contradiction|discriminate]. }
+  destruct (rr_points r) as [|p0 ps] eqn:Epts; [contradiction|]. rewrite <- Epts.
+  set (its := items_of S). set (bot := bottom_of S).
+  set (L := sort (rr_points r ++ implicit_points r)).
+  destruct (Hsort (rr_points r ++ implicit_points r)) as [Lp Ls]. fold L in Lp, Ls.
+  assert (Lperm : Permutation L (flat_map ipoints its)).
+  { apply Permutation_sym. unfold r in Lp. rewrite (points_are_item_points S Wall) in Lp. exact Lp. }
+  pose proof (items_nodup S wfS) as Hnd.
+  assert (Hrange : forall i, In i its -> i_s i < i_e i /\ i_e i <= two128)
+    by (intros i Hi; apply geo_range; apply (items_inum S wfS); auto).
+  assert (Hlam : forall i j, In i its -> In j its ->
+            i_e i <= i_s j \/ i_e j <= i_s i \/ (i_s i <= i_s j /\ i_e j <= i_e i) \/ (i_s j <= i_s i /\ i_e i <= i_e j))
+    by (intros i j Hi Hj; apply geo_lam; apply (items_inum S wfS); auto).
+  assert (Hstart : forall i j, In i its -> In j its -> i_s i = i_s j -> i_e j < i_e i -> imask i < imask j)
+    by (intros i j Hi Hj; apply geo_start; apply (items_inum S wfS); auto).
+  assert (Hend : forall i j, In i its -> In j its -> i_e i = i_e j -> i_e i < two128 -> i_s i < i_s j -> imask i < imask j)
+    by (intros i j Hi Hj; apply geo_end; apply (items_inum S wfS); auto).
+  assert (Hinj : forall i j, In i its -> In j its -> i_s i = i_s j -> i_e i = i_e j -> i = j)
+    by (intros i j Hi Hj; apply (items_inj S wfS); auto).
+  assert (Hmono : forall i j, In i its -> In j its -> i_s i <= i_s j -> i_e j <= i_e i -> imask i <= imask j).
+  { intros i j Hi Hj. apply geo_mono; try (apply (items_inum S wfS); auto).
+    intros [A1 [A2 _]] [B1 [B2 _]]. assert (i = j) by (apply Hinj; auto; congruence). subst. reflexivity. }
+  assert (Hemask : forall i, In i its -> rl_mask (i_el i) = imask i) by (intros i Hi; apply (items_emask S); auto).
+  destruct (bottom_of_spec S) as [Hb1 [Hb2 [Hb3 Hb4]]]. fold its bot in Hb1, Hb2, Hb3, Hb4.
+  assert (Hbot : In bot its /\ i_s bot = 0 /\ i_e bot = two128) by auto.
+  pose proof (sweep_correct its Hnd Hrange Hlam Hstart Hend Hinj Hmono Hemask bot Hbot L Lperm Ls) as Sw.
+  rewrite Sw. cbn [rbind]. eexists. split; [reflexivity|].
+  rewrite squash_eq. unfold pt_locate.
+  assert (Hnull : forall j, In j its -> rl_null (i_l j) = true -> imask j = 0)
+    by (intros j Hj; apply (items_null_mask S); auto).
+  assert (Hstr : forall j, In j its -> i_s j < a -> a < i_e j -> imask j <= plen)
+    by (intros j Hj; apply (items_straddle S wfS a plen Ha Hp Hm); auto).
+  pose proof (sweep_locate_some its Hnd Hrange Hlam Hstart Hend Hinj Hmono Hemask bot Hbot L Lperm Ls a plen Ha Hnull Hstr Hb4) as Some_.
+  destruct (pt_seek_aux None (squash_spec (map (asg its bot) L)) a plen) as [p|] eqn:Ep; [|contradiction].
+  destruct (sweep_locate its Hnd Hrange Hlam Hstart Hend Hinj Hmono Hemask bot Hbot L Lperm Ls a plen Ha Hnull Hstr Hb4 p Ep)
+    as [t [Ht [Pl [Et Mx]]]].
+  rewrite Pl. exact (emax_is_lpm S wfS a plen Ha Hp Hm t Ht Et Mx).
+Qed.
+
+(* ---------------------------------------------------------------- order independence *)
+
+Lemma nodup_blocksb_iff : forall S, nodup_blocksb S = true <-> NoDup (map (fun s => (s_addr s, s_len s)) S).
+Proof.
+  induction S as [|s S IH]; simpl.
+  - split; auto. constructor.
+  - rewrite Bool.andb_true_iff, Bool.negb_true_iff, IH. split.
+    + intros [H1 H2]. constructor; auto. intro C. apply in_map_iff in C. destruct C as [t [E Ht]].
+      assert (existsb (same_blockb s) S = true); [|congruence].
+      apply existsb_exists. exists t. split; auto. unfold same_blockb. inversion E. rewrite !N.eqb_refl. reflexivity.
+    + intro H. inversion H as [|? ? Hn Hd]; subst. split; auto.
+      destruct (existsb (same_blockb s) S) eqn:E; auto. exfalso. apply Hn.
+      apply existsb_exists in E. destruct E as [t [Ht Et]]. unfold same_blockb in Et.
+      apply Bool.andb_true_iff in Et. destruct Et as [E1 E2]. apply N.eqb_eq in E1, E2.
+      apply in_map_iff. exists t. split; auto. congruence.
+Qed.
+
+Lemma wf_subnets_perm : forall S S', Permutation S S' -> wf_subnets S -> wf_subnets S'.
+Proof.
+  intros S S' P W. unfold wf_subnets, wf_subnetsb in *. apply Bool.andb_true_iff in W. destruct W as [W1 W2].
+  apply Bool.andb_true_iff. split.
+  - rewrite forallb_forall in *. intros s Hs. apply W1. apply (Permutation_in _ (Permutation_sym P)). exact Hs.
+  - apply nodup_blocksb_iff. apply nodup_blocksb_iff in W2.
+    apply (Permutation_NoDup (Permutation_map _ P)). exact W2.
+Qed.
+
+(* under the guard lpm does not depend on the order of the declarations *)
+Lemma lpm_perm : forall S S' f a plen, wf_subnets S -> Permutation S S' -> lpm S f a plen = lpm S' f a plen.
+Proof.
+  intros S S' f a plen W P. pose proof (wf_subnets_perm S S' P W) as W'.
+  destruct (lpm S f a plen) as [[l k]|] eqn:R.
+  - destruct (lpm_some _ _ _ _ _ _ R) as [s [Hs [Es [<- <-]]]].
+    symmetry. apply lpm_unique.
+    + apply (Permutation_in _ P). exact Hs.
+    + exact Es.
+    + intros t Ht Et. apply (lpm_max _ _ _ _ _ _ R); auto. apply (Permutation_in _ (Permutation_sym P)). exact Ht.
+    + intros t Ht Et El. f_equal.
+      unfold eligible in Es, Et. apply Bool.andb_true_iff in Es, Et. destruct Es as [_ Cs], Et as [_ Ct].
+      pose proof (Permutation_in _ P Hs) as Hs'.
+      destruct (wf_subnetb_spec t (wf_in S' t W' Ht)) as [_ [_ [Wt _]]].
+      destruct (wf_subnetb_spec s (wf_in S' s W' Hs')) as [_ [_ [Ws _]]].
+      apply contains_clean in Cs; auto. apply contains_clean in Ct; auto.
+      apply (wf_same_block S'); auto. rewrite <- Cs, <- Ct, El. reflexivity.
+  - symmetry. apply lpm_none_iff. intros t Ht. apply (lpm_none _ _ _ _ R).
+    apply (Permutation_in _ (Permutation_sym P)). exact Ht.
+Qed.
+
+(* the lookup function computed from the range points does not depend on the order
+   in which AddLocation received the subnets (parallel workers), nor on which sorted
+   permutation sort.Slice returned *)
+Theorem rearrange_order_independent : forall sort sort' S S' a plen,
+  sort_spec sort -> sort_spec sort' -> wf_subnets S -> Permutation S S' ->
+  a < two128 -> plen <= 128 -> masked a plen ->
+  exists pts pts', rearrange sort S = Ok pts /\ rearrange sort' S' = Ok pts' /\
+                   pt_locate pts a plen = pt_locate pts' a plen.
+Proof.
+  intros sort sort' S S' a plen H1 H2 W P Ha Hp Hm.
+  destruct (rearrange_is_lpm sort S a plen H1 W Ha Hp Hm) as [pts [E1 L1]].
+  destruct (rearrange_is_lpm sort' S' a plen H2 (wf_subnets_perm S S' P W) Ha Hp Hm) as [pts' [E2 L2]].
+  exists pts, pts'. split; auto. split; auto. rewrite L1, L2. apply lpm_perm; auto.
+Qed.
+
+(* ---------------------------------------------------------------- outside the guard: finding F20 *)
+
+(* every condition of wf_subnets except "no IPv6 subnet other than ::/0 overlaps ::ffff:0:0/96" *)
+Definition wf_but_overlap (S : list subnet) : bool :=
+  forallb (fun s => (s_len s <=? 128) && (s_addr s <? two128) && (s_addr s mod blk_size (s_len s) =? 0)) S
+  && nodup_blocksb S.
+
+(* ::/64 alone: the client ::1:0:0:1 lies inside it and gets no location *)
+Theorem rearrange_lpm_refuted_inside :
+  exists S a plen, wf_but_overlap S = true /\ a < two128 /\ plen <= 128 /\ masked a plen /\
+    exists pts, rearrange isort S = Ok pts /\ pt_locate pts a plen = None /\
+                lpm S (fam a) a plen = Some ((0, 1), 64).
+Proof.
+  exists [mkSubnet 0 64 (0, 1)], (2 ^ 48 + 1), 128.
+  split; [vm_compute; reflexivity|]. split; [vm_compute; reflexivity|]. split; [vm_compute; discriminate|].
+  split; [vm_compute; reflexivity|].
+  eexists. split; [vm_compute; reflexivity|]. split; vm_compute; reflexivity.
+Qed.
+
+(* ::/1 alone: the client 8000:: lies outside every subnet and gets its location *)
+Theorem rearrange_lpm_refuted_outside :
+  exists S a plen, wf_but_overlap S = true /\ a < two128 /\ plen <= 128 /\ masked a plen /\
+    exists pts, rearrange isort S = Ok pts /\ pt_locate pts a plen = Some ((0, 1), 1) /\
+                lpm S (fam a) a plen = None.
+Proof.
+  exists [mkSubnet 0 1 (0, 1)], (2 ^ 127), 1.
+  split; [vm_compute; reflexivity|]. split; [vm_compute; reflexivity|]. split; [vm_compute; discriminate|].
+  split; [vm_compute; reflexivity|].
+  eexists. split; [vm_compute; reflexivity|]. split; vm_compute; reflexivity.
+Qed.
